@@ -251,7 +251,7 @@ def gen_file(g, allow_custom=True, allow_junk=True, extreme=True, dims=None):
     params3 = []
     if kinds3:
         for _ in range(g.integer(1, 3)):
-            pid = rnd.randint(0, 50) if rnd.random() < 0.8 else rnd.randint(-100, 10**6)
+            pid = rnd.choice([0, 0, 1, rnd.randint(0, 50)]) if rnd.random() < 0.8 else rnd.randint(-100, 10**6)
             if pid in [p["id"] for p in params3]:
                 continue
             nums = fb.numbers(3) + fb.quat(unit=True)
@@ -262,7 +262,7 @@ def gen_file(g, allow_custom=True, allow_junk=True, extreme=True, dims=None):
     used2 = set()
     if rnd.random() < 0.4:
         for _ in range(rnd.randint(1, 2)):
-            pid = rnd.randint(0, 50)
+            pid = rnd.choice([0, 0, 0, 1, 2, rnd.randint(0, 50)])
             if pid in used2:
                 continue
             used2.add(pid)
